@@ -66,6 +66,15 @@ def runLifecycle (_inp : List String) (out : String) : Option Res := Id.run do
       if c.reps != sr then ok := false; note := fail s!"reporter counter of dispute {c.id} is {c.reps}, the voters' reporter powers sum to {sr}" note
       if c.holders != sh then ok := false; note := fail s!"holder counter of dispute {c.id} is {c.holders}, the voters' holder powers sum to {sh}" note
       if (ts.map (·.voter)).eraseDups.length != ts.length then ok := false; note := fail s!"two voter records of one address for dispute {c.id}" note
+      -- no reporting stake counts twice: the reporter powers recorded for one reporter's group (the reporter and its selectors)
+      -- add up to that reporter's stake at the dispute's block when the reporter voted, and to no more otherwise
+      for g in ((ts.map (·.grp)).filter (· != "-")).eraseDups do
+        let grpVotes := ts.filter (·.grp == g)
+        let sumP := (grpVotes.map (·.repPower)).sum
+        let gst := (grpVotes.map (·.gstake)).foldl max 0
+        let repVoted := grpVotes.any (·.voter == g)
+        if sumP > gst then ok := false; note := fail s!"reporter powers of {g}'s group add up to {sumP} in dispute {c.id}, its stake at the dispute's block was {gst}" note
+        if repVoted && sumP != gst && grpVotes.all (fun t => t.repPower ≥ 0) then ok := false; note := fail s!"reporter {g} voted in dispute {c.id}: group powers {sumP}, stake at the dispute's block {gst}" note
   return some { agree := agree && !sc.halted, monitor := ok, nontrivial := decide (nTrans ≥ 2 ∧ nVotes ≥ 1),
                 model := s!"transitions={nTrans} votes={nVotes} rounds={nRounds}", note := if note != "" then note else sc.note }
 
